@@ -219,6 +219,10 @@ BITSBODY(B_BITS_U8, unsigned char, BITS_EQUAL(e, a, m))
 BITSBODY(B_BITS_U64, unsigned long, BITS_EQUAL(e, a, m))
 BITSBODY(B_BITS_TEXT_I32, int, BITS_EQUAL_TEXT(e, a, m, "text"))
 BITSBODY(B_CBITS_TEXT_I32, int, CHECK_EQUAL_C_BITS_TEXT(e, a, m, "text"))
+BITSBODY(B_BITS_TEXT_U8, unsigned char, BITS_EQUAL_TEXT(e, a, m, "text"))
+BITSBODY(B_CBITS_TEXT_U8, unsigned char, CHECK_EQUAL_C_BITS_TEXT(e, a, m, "text"))
+BITSBODY(B_BITS_TEXT_U64, unsigned long, BITS_EQUAL_TEXT(e, a, m, "text"))
+BITSBODY(B_CBITS_TEXT_U64, unsigned long, CHECK_EQUAL_C_BITS_TEXT(e, a, m, "text"))
 BITSBODY(B_CBITS_I32, int, CHECK_EQUAL_C_BITS(e, a, m))
 BITSBODY(B_CBITS_U8, unsigned char, CHECK_EQUAL_C_BITS(e, a, m))
 BITSBODY(B_CBITS_U64, unsigned long, CHECK_EQUAL_C_BITS(e, a, m))
@@ -348,8 +352,8 @@ bool op_bits(const vh::Words& w) {
     const std::string& m = w[1];
     Fn0 fn = 0;
     if (m == "BITS_EQUAL") fn = tm == 4 ? pick_same<B_BITS_I32>(te) : tm == 1 ? pick_same<B_BITS_U8>(te) : pick_same<B_BITS_U64>(te);
-    else if (m == "BITS_EQUAL_TEXT" && tm == 4) fn = pick_same<B_BITS_TEXT_I32>(te);
-    else if (m == "C_BITS_TEXT" && tm == 4) fn = pick_same<B_CBITS_TEXT_I32>(te);
+    else if (m == "BITS_EQUAL_TEXT") fn = tm == 4 ? pick_same<B_BITS_TEXT_I32>(te) : tm == 1 ? pick_same<B_BITS_TEXT_U8>(te) : pick_same<B_BITS_TEXT_U64>(te);
+    else if (m == "C_BITS_TEXT") fn = tm == 4 ? pick_same<B_CBITS_TEXT_I32>(te) : tm == 1 ? pick_same<B_CBITS_TEXT_U8>(te) : pick_same<B_CBITS_TEXT_U64>(te);
     else if (m == "C_BITS") fn = tm == 4 ? pick_same<B_CBITS_I32>(te) : tm == 1 ? pick_same<B_CBITS_U8>(te) : pick_same<B_CBITS_U64>(te);
     if (!fn) return false;
     std::string se = store(0, te, w[3]), sa = store(1, ta, w[5]), sm = store(2, tm, w[7]);
